@@ -83,7 +83,7 @@ def rule_R1_R2(ctx, decode_owner, chain_names, rule_prefix):
         masks |= _masks(P, b)
     ok = {0x8, 0x20} <= masks
     b0, blk0 = dec[0]
-    ctx.check(ok, "R1", rule_prefix + ":headers-flags",
+    ctx.check(ok, "R1", rule_prefix + ":headers-flags" + ("" if ok else ":masks=" + ("+".join(hex(m) for m in sorted(masks)) or "none")),
               "PADDED (0x8) and PRIORITY (0x20) flags are tested before decoding",
               "the HEADERS payload is passed to the HPACK decoder without looking at frame.flags (masks tested: %s): a HEADERS frame with the PADDED or PRIORITY "
               "flag carries a pad-length byte / 5 priority bytes in front of the header block, which are decoded as HPACK and make the request unparsable" %
